@@ -88,6 +88,9 @@ var atColKinds = map[string]colKind{
 	"enum": {"enum", func(n string) mm.Column {
 		return mm.Column{Name: n, T: mm.TChar, DataType: "enum", ColType: "enum('draft','open','closed')"}
 	}, func(r *vc.Rand) interface{} { return []string{"draft", "open", "closed"}[r.Intn(3)] }},
+	// the column of a secondary unique index (see atGenTable, key shapes ending in "+uq"): nullable, values far apart
+	"uq": {"uq", func(n string) mm.Column { return mm.Column{Name: n, T: mm.TInt, Bits: 64, Nullable: true, ColType: "bigint(20)"} },
+		func(r *vc.Rand) interface{} { return int64(1000000 + r.Intn(900000000)) }},
 	"double": {"double", func(n string) mm.Column { return mm.Column{Name: n, T: mm.TDouble, ColType: "double"} },
 		func(r *vc.Rand) interface{} {
 			return []float64{0, 1.5, -2.25, 1e-300, 1e300, 3.141592653589793, 100}[r.Intn(7)]
@@ -135,6 +138,7 @@ var atAllKinds = []string{"int", "bigint", "tinyint", "ubigint", "varchar", "var
 
 type atTable struct {
 	Name   string
+	Uniq   int    // column index of the secondary unique index's column, -1 if the table has none
 	PKKind string // int | autoinc | composite | varchar | composite3
 	Def    *mm.Table
 	Kinds  []string        // column kind per column
@@ -160,7 +164,9 @@ func (t *atTable) isPK(i int) bool {
 
 // atGenTable builds a table of the given pk kind with nv value columns drawn from kinds.
 func atGenTable(r *vc.Rand, name, pkKind string, kinds []string, nv, nrows int, nullable bool) *atTable {
-	t := &atTable{Name: name, PKKind: pkKind, Def: &mm.Table{Name: name}}
+	withUq := strings.HasSuffix(pkKind, "+uq")
+	pkKind = strings.TrimSuffix(pkKind, "+uq")
+	t := &atTable{Name: name, PKKind: pkKind, Def: &mm.Table{Name: name}, Uniq: -1}
 	add := func(c mm.Column, kind string) int {
 		t.Def.Cols = append(t.Def.Cols, c)
 		t.Kinds = append(t.Kinds, kind)
@@ -191,6 +197,14 @@ func atGenTable(r *vc.Rand, name, pkKind string, kinds []string, nv, nrows int, 
 		c := atColKinds[k].mk(fmt.Sprintf("c%d", i))
 		c.Nullable = nullable && r.Intn(3) != 0
 		vcols = append(vcols, add(c, k))
+	}
+	if withUq {
+		// a secondary unique index on a nullable column: an upsert can hit a row through it under another primary key
+		c := atColKinds["uq"].mk("uq")
+		t.Uniq = add(c, "uq")
+		t.Def.Uniques = [][]int{{t.Uniq}}
+		t.Def.UniqueN = []string{"uq_idx"}
+		t.PKKind = pkKind + "+uq"
 	}
 	switch pkKind {
 	case "composite":
@@ -229,7 +243,12 @@ func atGenTable(r *vc.Rand, name, pkKind string, kinds []string, nv, nrows int, 
 					row[ci] = int64(10 * (i + 1))
 				}
 			default:
-				if c.Nullable && r.Intn(5) == 0 {
+				if t.Kinds[ci] == "uq" {
+					row[ci] = int64(100 + i)
+					if i == nrows-1 && nrows > 2 {
+						row[ci] = nil
+					}
+				} else if c.Nullable && r.Intn(5) == 0 {
 					row[ci] = nil
 				} else {
 					row[ci] = atColKinds[t.Kinds[ci]].gen(r)
@@ -290,6 +309,21 @@ func sqlLit(v interface{}) string {
 	return fmt.Sprint(v)
 }
 
+// upsertSetCols: the columns an ON DUPLICATE KEY UPDATE list may assign: the value columns without the unique
+// index's column, or exactly that column.
+func (t *atTable) upsertSetCols(assignUq bool) []int {
+	if assignUq && t.Uniq >= 0 {
+		return []int{t.Uniq}
+	}
+	var out []int
+	for _, ci := range t.valueCols() {
+		if ci != t.Uniq {
+			out = append(out, ci)
+		}
+	}
+	return out
+}
+
 func (t *atTable) valueCols() []int {
 	var out []int
 	for ci := range t.Def.Cols {
@@ -304,6 +338,11 @@ type atStmtOpts struct {
 	params      bool   // bound parameters (false: literals)
 	rowsClass   string // "0" "1" "many"
 	shuffleCols bool   // INSERT: column list in another order than the table's
+	assignUq    bool   // upsert: the ON DUPLICATE KEY UPDATE list assigns the column of the secondary unique index
+	assignPk    bool   // upsert: the update list also says <key column> = VALUES(<key column>)
+	// multi-row upsert: the first value group is a new row with NULL in the unique index's column, the second one finds
+	// an existing row through that index
+	nullThenUqHit bool
 }
 
 // atGenUpdate: UPDATE t SET <1..2 value columns> WHERE ...
@@ -544,10 +583,13 @@ func atGenUpsert(r *vc.Rand, t *atTable, o atStmtOpts, hit bool, seq *int) atStm
 		base = t.Rows[r.Intn(len(t.Rows))]
 	}
 	*seq++
+	viaUq := base != nil && t.Uniq >= 0 && base[t.Uniq] != nil && r.Bool()
 	for ci, c := range t.Def.Cols {
 		var v interface{}
-		if t.Kinds[ci] == "pk" {
-			if base != nil {
+		if t.Kinds[ci] == "uq" && base != nil {
+			v = base[ci]
+		} else if t.Kinds[ci] == "pk" {
+			if base != nil && !viaUq {
 				v = base[ci]
 			} else {
 				switch c.Name {
@@ -580,7 +622,7 @@ func atGenUpsert(r *vc.Rand, t *atTable, o atStmtOpts, hit bool, seq *int) atStm
 			ph = append(ph, sqlLit(v))
 		}
 	}
-	vcs := t.valueCols()
+	vcs := t.upsertSetCols(o.assignUq)
 	uc := t.Def.Cols[vcs[r.Intn(len(vcs))]]
 	uv := atColKinds[t.Kinds[t.Def.PK[0]*0+indexOfCol(t, uc.Name)]].gen(r)
 	upd := uc.Name + " = ?"
@@ -589,12 +631,20 @@ func atGenUpsert(r *vc.Rand, t *atTable, o atStmtOpts, hit bool, seq *int) atStm
 	} else {
 		upd = uc.Name + " = " + sqlLit(uv)
 	}
+	if o.assignPk {
+		for _, pc := range t.pkCols() {
+			upd += fmt.Sprintf(", %s = values(%s)", pc, pc)
+		}
+	}
 	h := "miss"
 	if base != nil {
 		h = "hit"
 	}
+	if viaUq {
+		h = "hit(via-unique-index)"
+	}
 	return atStmt{Kind: "upsert", Table: t.Name, SQL: fmt.Sprintf("insert into %s (%s) values (%s) on duplicate key update %s", t.Name, strings.Join(cols, ", "), strings.Join(ph, ", "), upd), Args: args,
-		Feat: map[string]string{"stmt": "upsert", "params": fmt.Sprint(o.params), "rows": "1", "upsert": h}}
+		Feat: map[string]string{"stmt": "upsert", "params": fmt.Sprint(o.params), "rows": "1", "upsert": h, "upsert_assigns_unique_key": fmt.Sprint(o.assignUq && t.Uniq >= 0), "upsert_assigns_pk": fmt.Sprint(o.assignPk)}}
 }
 
 // atGenUpsertMulti: one INSERT ... ON DUPLICATE KEY UPDATE with several value groups, some naming existing keys and
@@ -607,7 +657,7 @@ func atGenUpsertMulti(r *vc.Rand, t *atTable, o atStmtOpts, seq *int) atStmt {
 	for _, c := range t.Def.Cols {
 		cols = append(cols, c.Name)
 	}
-	hits, misses := 0, 0
+	hits, misses, uqHits := 0, 0, 0
 	for k := 0; k < n; k++ {
 		var base []interface{}
 		if k < len(perm) && (k == 0 || r.Bool()) && !(k == n-1 && misses == 0 && r.Intn(4) != 0) {
@@ -616,12 +666,47 @@ func atGenUpsertMulti(r *vc.Rand, t *atTable, o atStmtOpts, seq *int) atStmt {
 		} else {
 			misses++
 		}
+		// through the secondary unique index: a new primary key with the unique value of an existing row
+		viaUq := base != nil && t.Uniq >= 0 && base[t.Uniq] != nil && r.Intn(2) == 0
+		nullUq := t.Uniq >= 0 && k == 0 && !viaUq && r.Intn(3) == 0
+		if o.nullThenUqHit && t.Uniq >= 0 && k < 2 {
+			if k == 0 {
+				if base != nil {
+					hits--
+					misses++
+				}
+				base, viaUq, nullUq = nil, false, true
+			} else {
+				for _, row := range t.Rows {
+					if row[t.Uniq] != nil {
+						if base == nil {
+							misses--
+							hits++
+						}
+						base, viaUq, nullUq = row, true, false
+						break
+					}
+				}
+			}
+		}
+		if viaUq {
+			uqHits++
+		}
 		*seq++
 		var ph []string
 		for ci, c := range t.Def.Cols {
 			var v interface{}
-			if t.Kinds[ci] == "pk" {
-				if base != nil {
+			if t.Kinds[ci] == "uq" {
+				switch {
+				case nullUq:
+					v = nil
+				case base != nil:
+					v = base[ci]
+				default:
+					v = atColKinds["uq"].gen(r)
+				}
+			} else if t.Kinds[ci] == "pk" {
+				if base != nil && !viaUq {
 					v = base[ci]
 				} else {
 					switch c.Name {
@@ -655,7 +740,7 @@ func atGenUpsertMulti(r *vc.Rand, t *atTable, o atStmtOpts, seq *int) atStmt {
 		}
 		groups = append(groups, "("+strings.Join(ph, ", ")+")")
 	}
-	vcs := t.valueCols()
+	vcs := t.upsertSetCols(o.assignUq)
 	ci := vcs[r.Intn(len(vcs))]
 	uc := t.Def.Cols[ci]
 	uv := atColKinds[t.Kinds[ci]].gen(r)
@@ -671,8 +756,11 @@ func atGenUpsertMulti(r *vc.Rand, t *atTable, o atStmtOpts, seq *int) atStmt {
 	} else if hits == 0 {
 		mix = "misses"
 	}
+	if uqHits > 0 {
+		mix += "(via-unique-index)"
+	}
 	return atStmt{Kind: "upsert", Table: t.Name, SQL: fmt.Sprintf("insert into %s (%s) values %s on duplicate key update %s", t.Name, strings.Join(cols, ", "), strings.Join(groups, ", "), upd), Args: args,
-		Feat: map[string]string{"stmt": "upsert", "params": fmt.Sprint(o.params), "rows": "many", "upsert": mix}}
+		Feat: map[string]string{"stmt": "upsert", "params": fmt.Sprint(o.params), "rows": "many", "upsert": mix, "upsert_assigns_unique_key": fmt.Sprint(o.assignUq && t.Uniq >= 0)}}
 }
 
 func indexOfCol(t *atTable, name string) int {
@@ -727,7 +815,11 @@ func describeTable(t *atTable) string {
 		_ = i
 		cs = append(cs, s)
 	}
-	return fmt.Sprintf("%s(%s; primary key(%s); %d rows)", t.Name, strings.Join(cs, ", "), strings.Join(t.pkCols(), ","), len(t.Rows))
+	uq := ""
+	if t.Uniq >= 0 {
+		uq = "; unique key uq_idx(" + t.Def.Cols[t.Uniq].Name + ")"
+	}
+	return fmt.Sprintf("%s(%s; primary key(%s)%s; %d rows)", t.Name, strings.Join(cs, ", "), strings.Join(t.pkCols(), ","), uq, len(t.Rows))
 }
 
 // steps translates the program into the client's step language for db handle dbName.
@@ -776,12 +868,16 @@ func (c *atCase) fold() {
 	sets := map[string]bool{}
 	n := 0
 	expl := false
+	assignsUq := false
 	for _, g := range c.Groups {
 		if g.Explicit {
 			expl = true
 		}
 		for _, s := range g.Stmts {
 			n++
+			if s.Feat["upsert_assigns_unique_key"] == "true" {
+				assignsUq = true
+			}
 			kinds[s.Feat["stmt"]] = true
 			rows[s.Feat["stmt"]+":"+s.Feat["rows"]] = true
 			params[s.Feat["params"]] = true
@@ -814,4 +910,5 @@ func (c *atCase) fold() {
 	c.Feat["nstmts"] = fmt.Sprint(n)
 	c.Feat["branches"] = fmt.Sprint(len(c.Groups))
 	c.Feat["explicit_tx"] = fmt.Sprint(expl)
+	c.Feat["upsert_assigns_unique_key"] = fmt.Sprint(assignsUq)
 }
